@@ -1,0 +1,19 @@
+//go:build verif
+
+package render
+
+import (
+	"github.com/deadsy/sdfx/sdf"
+)
+
+// VerifMarchingCubes is marchingCubes: the uniform cube walk over the box with the
+// given step (does not close the output).
+func VerifMarchingCubes(s sdf.SDF3, box sdf.Box3, step float64, output sdf.Triangle3Writer) {
+	marchingCubes(s, box, step, output)
+}
+
+// VerifMarchingSquares is marchingSquares: the uniform square walk over the scaled
+// bounding box of s with the given resolution (closes the output).
+func VerifMarchingSquares(s sdf.SDF2, resolution float64, output sdf.Line2Writer) {
+	marchingSquares(s, resolution, output)
+}
